@@ -750,6 +750,46 @@ def run_readonly_strace(ctx):
     ctx.cov["traces_validated_against_impl"] += 1
 
 
+def run_corrupt(ctx, histories, steps):
+    trace = os.path.join(ctx.work, "corrupt.ndjson")
+    scripts = os.path.join(ctx.work, "corrupt-scripts.ndjson")
+    p = sh([bin_path("corrupt"), "--seed", str(ctx.seed), "--histories", str(histories), "--steps", str(steps), "--tier", ctx.tier,
+            "--out", trace, "--scripts-out", scripts], timeout=7200)
+    stats = json.loads(p.stdout.strip().splitlines()[-1])
+    log(f"corrupt: {stats['alterations']} altered images over {stats['histories']} histories: {stats['certified_ok_true']} certified, "
+        f"{stats['repaired_ok_false']} repaired, {stats['rejected_with_error']} rejected, {stats['panics']} panics; "
+        f"{stats['distinct_outcomes']} distinct outcomes, {p.wall:.1f}s")
+    ok, info = tlc_trace(ctx, "KvTrace", trace)
+    ctx.cov["evaluations"] += stats["alterations"]
+    ctx.cov["distinct_nontrivial"] += stats["distinct_outcomes"]
+    ctx.notes["corrupt"] = {k: v for k, v in stats.items() if k != "samples"}
+    ctx.add_samples(stats["samples"][:2])
+    if ok:
+        ctx.cov["traces_validated_against_impl"] += stats["histories"]
+        return stats
+    rec = info["record"]
+    if rec.get("e") != "cprobe":
+        raise kv_violation(ctx, trace, info)
+    script = None
+    for l in open(scripts):
+        j = json.loads(l)
+        if j["history"] == rec["run"]:
+            script = j
+    what = (f"altered image ({json.dumps(rec['alt'])}, one of {rec['n']} alterations with this outcome) of history {rec['run']}: "
+            f"check_integrity() returned {json.dumps(rec.get('integ'))} but the contents served are no commit point of the history"
+            + ("" if rec.get("integ") != {"ok": False} else f" / second check {json.dumps(rec.get('integ2'))}"))
+    sig = "corrupt:" + hashlib.sha256(json.dumps([script["cfg"], script["steps"], rec["alt"]], sort_keys=True).encode()).hexdigest()[:16]
+    payload = {"property": ctx.prop, "kind": "corrupt", "cfg": script["cfg"], "steps": script["steps"], "alt": rec["alt"], "what": what, "signature": sig}
+    raise Violation(ctx.prop, save_replay(ctx.prop, payload), what, sig)
+
+
+def replay_corrupt(ctx, replay_path):
+    trace = os.path.join(ctx.work, "replay-corrupt.ndjson")
+    sh([bin_path("corrupt"), "--replay", replay_path, "--out", trace], timeout=1200)
+    ok, info = tlc_trace(ctx, "KvTrace", trace)
+    return not ok
+
+
 def gen_tour(ctx, module, cfg, out_name, workers=4, timeout=900):
     """Have TLC print every transition of a tour model"""
     out_path = os.path.join(ctx.work, out_name)
@@ -1120,8 +1160,27 @@ def check_C13(ctx):
                      "contents (crash enumeration of C01 on compaction-heavy histories)")
 
 
+def check_C12(ctx):
+    build()
+    st = run_corrupt(ctx, tiered(ctx, 2, 12), tiered(ctx, 90, 200))
+    if st["rejected_with_error"] + st["panics"] < 1000:
+        raise ToolError(f"vacuity: hardly any alteration was noticed: {st}")
+    ctx.assumptions += ["alterations enumerated: every bit of the 320-byte header; every byte of the file x {xor 0x01, xor 0x80, 0x00, 0xff}; random "
+                        "runs of 2/7/16/64 bytes at every 16-byte offset; all pairs of the first 40 (thorough: 120) pages swapped",
+                        "a panic while opening or checking an altered image is counted (evidence key panics) and treated like an error: the "
+                        "property forbids a false Ok(true), not a loud failure"]
+    return dict(level="fault_enumeration", exhaustive=False,
+                rule="for each cleanly closed image (compacted first, so the sweep over EVERY byte of the file is complete) of recorded histories "
+                     "(tables, multimaps with subtrees, persistent savepoints): all alterations of the stated classes; each altered image is opened, "
+                     "check_integrity() is called and all contents are read back (every byte of every value compared); TLC (Kv!CorruptProbe) "
+                     "requires: Ok(true) or Ok(false) only if the served contents are exactly one commit point of the history, and after "
+                     "Ok(false) a second check returns Ok(true) with the same contents. distinct_nontrivial = distinct outcomes judged by TLC; "
+                     "evaluations = altered images probed")
+
+
 PROPS = {
     "C01": check_C01,
+    "C12": check_C12,
     "C11": check_C11,
     "C13": check_C13,
     "C15": check_C15,
@@ -1178,6 +1237,8 @@ def main(argv):
                     still = True
             elif payload.get("kind") == "fault":
                 still = replay_fault(ctx, replay)
+            elif payload.get("kind") == "corrupt":
+                still = replay_corrupt(ctx, replay)
             elif payload.get("kind") == "buddy":
                 still = replay_buddy(ctx, payload)
             else:
